@@ -368,6 +368,7 @@ class Path:
         self.result = None
         self.env = {}
         self.events = []           # monitor events (allocation requests etc.)
+        self.model = None          # guiding model (concolic mode): decisions follow it without solver calls
         self.steps = 0
 
 
@@ -381,6 +382,8 @@ class Exec:
         self.max_paths = 2000
         self.merge_calls = True
         self.pure_cache = {}
+        self.sub_solver = z3.Solver()
+        self.sub_solver.set('timeout', 10000)
         self.switch_cache = {}
         self.path = None
         self.fns_reached = set()
@@ -391,12 +394,21 @@ class Exec:
         self.fresh_n = 0
 
     # ---------------------------------------------------------------- solver
+    def set_assumptions(self, cons):
+        """install the global assumptions (validity predicate of the current shape) once; checks are incremental on top"""
+        self.assumptions = list(cons)
+        self.solver.reset()
+        self.solver.set('timeout', 10000)
+        for c in self.assumptions:
+            self.solver.add(c)
+        self._asserted = len(self.assumptions)
+
     def check(self, conds):
         self.stats['checks'] += 1
         t = time.time()
+        if getattr(self, '_asserted', 0) != len(self.assumptions):
+            self.set_assumptions(self.assumptions)
         self.solver.push()
-        for c in self.assumptions:
-            self.solver.add(c)
         for c in conds:
             self.solver.add(c)
         r = self.solver.check()
@@ -409,6 +421,9 @@ class Exec:
             return True
         if z3.is_false(cond):
             return False
+        if self.path is not None and self.path.model is not None:
+            # concolic mode: the caller follows up with branch(cond); other outcomes are found by the coverage loop
+            return True
         r = self.check(self.path.pc + [cond])
         if r == z3.unknown:
             raise Unsupported('solver unknown in feasibility check')
@@ -417,6 +432,18 @@ class Exec:
     def choose(self, alts, free_var=None):
         """alts: list of Bool conditions, mutually exclusive and exhaustive. Returns chosen index; forks others."""
         P = self.path
+        if P.model is not None:
+            hit = None
+            for i, c in enumerate(alts):
+                if z3.is_true(P.model.eval(c, model_completion=True)):
+                    hit = i
+                    break
+            if hit is None:
+                raise Unsupported('guiding model satisfies no alternative')
+            P.taken.append(hit)
+            if not z3.is_true(alts[hit]):
+                P.pc.append(alts[hit])
+            return hit
         if P.pos < len(P.prefix):
             i = P.prefix[P.pos]
             P.pos += 1
@@ -493,6 +520,74 @@ class Exec:
             done.append(P)
             if on_path:
                 on_path(P)
+        return done
+
+    def explore_guided(self, fn_key, mk_args, pc0=None, env=None, on_path=None):
+        """Concolic exploration under self.assumptions (+pc0): each path follows a model of the not-yet-covered inputs;
+        one solver call per path plus one final call showing that the explored path conditions cover every input."""
+        done = []
+        s = self.solver
+        if getattr(self, '_asserted', 0) != len(self.assumptions):
+            self.set_assumptions(self.assumptions)
+        s.push()
+        try:
+            for c in (pc0 or []):
+                s.add(c)
+            while True:
+                self.stats['checks'] += 1
+                t = time.time()
+                r = s.check()
+                self.stats['solver_s'] += time.time() - t
+                if r == z3.unknown:
+                    P = Path([])
+                    P.status = 'unsupported'
+                    P.detail = 'solver unknown in coverage query'
+                    done.append(P)
+                    break
+                if r == z3.unsat:
+                    break
+                if len(done) >= self.max_paths:
+                    P = Path([])
+                    P.status = 'unsupported'
+                    P.detail = 'path budget (%d)' % self.max_paths
+                    done.append(P)
+                    break
+                m = s.model()
+                P = Path([])
+                P.model = m
+                P.pc = list(pc0 or [])
+                if env:
+                    P.env = dict(env)
+                saved = self.path
+                self.path = P
+                self.stats['paths'] += 1
+                try:
+                    args = mk_args()
+                    P.result = self.call(fn_key, args)
+                    P.status = 'ret'
+                except PathEnd as e:
+                    P.status = e.status
+                    P.detail = e.detail
+                except Unsupported as e:
+                    P.status = 'unsupported'
+                    P.detail = str(e)
+                except CannotMerge:
+                    P.status = 'unsupported'
+                    P.detail = 'cannot merge'
+                finally:
+                    self.path = saved
+                P.model = None
+                done.append(P)
+                if on_path:
+                    on_path(P)
+                if P.status == 'unsupported':
+                    break
+                own = P.pc[len(pc0 or []):]
+                if not own:
+                    break     # the path condition is 'true': it covers everything
+                s.add(z3.Not(z3.And(*own)) if len(own) > 1 else z3.Not(own[0]))
+        finally:
+            s.pop()
         return done
 
     # ---------------------------------------------------------------- calls
@@ -572,6 +667,9 @@ class Exec:
                 sub.__dict__.update(self.__dict__)
                 sub.path = None
                 sub.assumptions = []
+                sub._asserted = 0
+                sub.solver = self.sub_solver
+                sub.max_paths = 200000
                 outs = sub.explore(key, mk)
                 self.fns_reached |= sub.fns_reached
                 if all(o.status == 'ret' for o in outs):
@@ -625,6 +723,9 @@ class Exec:
                 sub.__dict__.update(self.__dict__)
                 sub.path = None
                 sub.assumptions = []
+                sub._asserted = 0
+                sub.solver = self.sub_solver
+                sub.max_paths = 200000
                 outs = sub.explore(key, mk)
                 self.fns_reached |= sub.fns_reached
                 if len(outs) != 1 or outs[0].status != 'ret':
@@ -787,6 +888,8 @@ class Exec:
             raise Unsupported('field-write %r into %r' % (last, v))
 
     def clone(self, v):
+        if type(v) is not Agg and isinstance(v, Agg):
+            return v      # annotated aggregates (Duration) are immutable values
         if isinstance(v, Agg):
             return Agg([self.clone(x) for x in v.f])
         if isinstance(v, EnumV):
@@ -805,6 +908,8 @@ class Exec:
                 return Opaque('fndef', ty=ty)
             if isinstance(r, dict) and ('Adt' in r or 'Tuple' in r or 'Closure' in r):
                 return Agg([])
+            if isinstance(r, dict) and 'Array' in r:
+                return Agg([Agg([]) for _ in range(self.array_len(ty))])
             return Opaque('zst', ty=ty)
         if isinstance(kind, dict) and 'Allocated' in kind:
             al = kind['Allocated']
@@ -987,6 +1092,9 @@ class Exec:
         return self.place_ty(fn, op.get('Copy') or op.get('Move'))
 
     def enum_discr_value(self, ty, v, w):
+        if v is None:
+            # discriminant of a never-assigned local: only occurs feeding `assume` in optimised std MIR
+            return self.fresh('uninit_discr', w)
         adt = self.p.adt(ty)
         if isinstance(v, CoroV):
             return BV(v.state, w)
@@ -1343,6 +1451,40 @@ class Exec:
                     return b
             return tg['otherwise']
         d = simp(d)
+        dm = self.diamond(fn, sw)
+        if dm is not None:
+            # if-conversion: several targets only assign a constant to the same local and rejoin -> one merged alternative
+            local, join, consts, others = dm
+            gconds = []
+            val = None
+            for v, cst in consts:
+                cond = (d == BV(v, d.size())) if v is not None else None
+                gconds.append((cond, cst))
+            explicit = [c for c, _ in gconds if c is not None]
+            alts = []
+            # 'otherwise' belongs to the group when its block is simple too
+            other_conds = [d == BV(v, d.size()) for v, _ in others if v is not None]
+            if any(c is None for c, _ in gconds):
+                group = z3.Not(z3.Or(*other_conds)) if other_conds else z3.BoolVal(True)
+            else:
+                group = z3.Or(*explicit) if len(explicit) > 1 else explicit[0]
+            alts.append(group)
+            targets = [None]
+            for v, b in others:
+                if v is not None:
+                    alts.append(d == BV(v, d.size()))
+                else:
+                    alts.append(z3.Not(z3.Or(*(explicit + other_conds))) if (explicit + other_conds) else z3.BoolVal(True))
+                targets.append(b)
+            i = self.choose(alts) if len(alts) > 1 else 0
+            if i == 0:
+                default = [cst for c, cst in gconds if c is None]
+                val = self.const(default[0]) if default else self.const(gconds[-1][1])
+                for c, cst in reversed([g for g in gconds if g[0] is not None][:None if default else -1]):
+                    val = z3.If(c, self.const(cst), val)
+                fr[local].val = val
+                return join
+            return targets[i]
         ck = (id(sw), d.get_id())
         ent = self.switch_cache.get(ck)
         if ent is None:
@@ -1363,6 +1505,62 @@ class Exec:
         alts, targets, fv, _ = ent
         i = self.choose(alts, fv)
         return targets[i]
+
+    def diamond(self, fn, sw):
+        """analysis (cached): which switch targets are 'assign a scalar constant to local L; goto J' blocks"""
+        cache = fn.setdefault('_diamonds', {})
+        k = id(sw)
+        if k in cache:
+            return cache[k]
+        blocks = fn['body']['blocks']
+        tg = sw['targets']
+        ents = [(v, b) for v, b in tg['branches']] + [(None, tg['otherwise'])]
+        simple = {}
+        for v, b in ents:
+            if b in simple:
+                continue
+            blk = blocks[b]
+            t = blk['terminator']['kind']
+            ok = isinstance(t, dict) and 'Goto' in t
+            asg = None
+            if ok:
+                for st in blk['statements']:
+                    kk = st['kind']
+                    if isinstance(kk, dict) and 'Assign' in kk:
+                        pl, rv = kk['Assign']
+                        if asg is not None or pl['projection'] or 'Use' not in rv:
+                            ok = False
+                            break
+                        u = rv['Use']
+                        u = u[0] if isinstance(u, list) else u
+                        if 'Constant' not in u or not self.p.int_info(u['Constant']['const_']['ty']):
+                            ok = False
+                            break
+                        asg = (pl['local'], u['Constant'])
+                    elif isinstance(kk, dict) and ('StorageLive' in kk or 'StorageDead' in kk):
+                        continue
+                    elif kk == 'Nop':
+                        continue
+                    else:
+                        ok = False
+                        break
+            simple[b] = (asg[0], t['Goto']['target'], asg[1]) if ok and asg else None
+        groups = {}
+        for v, b in ents:
+            if simple[b]:
+                groups.setdefault((simple[b][0], simple[b][1]), []).append((v, simple[b][2]))
+        res = None
+        best = max(groups.items(), key=lambda kv: len(kv[1])) if groups else None
+        if best and len(best[1]) >= 2 and len(set(id(b) for b in ents)) >= 2:
+            (local, join), consts = best
+            inb = set()
+            for v, b in ents:
+                if simple[b] and (simple[b][0], simple[b][1]) == (local, join):
+                    inb.add((v, b))
+            others = [(v, b) for v, b in ents if (v, b) not in inb]
+            res = (local, join, consts, others)
+        cache[k] = res
+        return res
 
     def do_call(self, fr, fn, bb, c):
         info = fn['calls'].get(str(bb))
